@@ -1,7 +1,7 @@
 """C06 — only declared discriminants are accepted; each selects its own arm."""
 from lib import *
 import re
-import t2, t2props
+import t2, t2props, t3
 
 
 def judge(c, iv, ia, spec, mv, ma):
@@ -25,9 +25,36 @@ RULE = ("at every bool / optional marker / enum / union discriminant / string po
         "on valid encodings (every label of every fall-through group, constants, enum members, TRUE/FALSE, default) the selected variants are compared with the declared arms")
 
 
+K14_SPEC = "const c = 1; enum e { A = 0, B = 1 }; union u switch (unsigned int s) { case A: int a; case B: int b; };"
+
+
+def probe_k14(rep):
+    """finding K14 (recorded, not repaired: the guard text is pinned by a golden test): the witness is compiled and run; the code, the
+    model (which follows Rust's reading of `c` as a constant pattern) and the declared arms are compared on three discriminants"""
+    import t4
+    b = t2.Batch([K14_SPEC], with_clone=False, tag="k14")
+    if b.status.get("0") != "ok":
+        rep.violation({"kind": "K14 witness does not compile", "spec": K14_SPEC, "rustc": b.compile_errors.get("0")})
+        return
+    ins = [(0).to_bytes(4, "big") + (7).to_bytes(4, "big"), (1).to_bytes(4, "big") + (7).to_bytes(4, "big"), (2).to_bytes(4, "big")]
+    want = ["ok (U:u::A 7) ws=8", "ok (U:u::B 7) ws=8", "err UnknownVariant 2"]
+    reqs = ["dec 0 val u 0 " + x.hex() for x in ins]
+    impl = [t4.split_reply(x)[0] for x in b.run(reqs)]
+    model = [t4.split_reply(x)[0] for x in run_driver(["spec " + t3.hx(K14_SPEC)] + reqs)[1:]]
+    rep.cov["k14_probe"] = {"impl": impl, "model": model, "declared": want}
+    if impl != model:
+        rep.violation({"kind": "tie-T2-broken", "tie": "K14 witness: compiled decoder vs Fx.Eval", "spec": K14_SPEC, "observed": impl, "model": model}, found_input=False)
+    elif [i.split(" ws=")[0] for i in impl] != [w.split(" ws=")[0] for w in want]:
+        kf = next(x for x in load_known() if x["id"] == "K14")
+        rep.known_finding("K14", kf["what"])
+    else:
+        rep.notes.append("known finding K14 no longer reproduces")
+
+
 def check(rep, tier, rng):
     proof_stage(rep, "C06")
     t2props.run_property(rep, "C06", tier, rng, judge, RULE)
+    probe_k14(rep)
 
 
 def replay(rep, r):
